@@ -12,6 +12,10 @@ import time
 ROOT = os.path.dirname(os.path.dirname(os.path.abspath(__file__)))
 LEAN = os.path.join(ROOT, "lean")
 SCRATCH = os.path.join(ROOT, ".scratch")
+# development aid (tools/par_seeded.py): evidence and replays of a run against a scratch copy of the repository go elsewhere
+OUT = os.environ.get("HX_OUT") or ROOT
+# scale of every sampled leg (tie scenarios, oracle cases); the per-property numbers in scopes.py / props/*.py are the unit
+BUDGET = int(os.environ.get("HX_BUDGET", "3"))
 ALLOWED_AXIOMS = {"propext", "Classical.choice", "Quot.sound"}
 FORBIDDEN = re.compile(r"\bsorry\b|\badmit\b|^\s*axiom\s|native_decide|bv_decide|implemented_by|\bunsafe\s|maxHeartbeats\s+0")
 
@@ -136,9 +140,9 @@ def load_known():
 
 
 def write_replay(pid, payload):
-    os.makedirs(os.path.join(ROOT, "replays"), exist_ok=True)
+    os.makedirs(os.path.join(OUT, "replays"), exist_ok=True)
     h = hashlib.sha1(json.dumps(payload, sort_keys=True, default=str).encode()).hexdigest()[:10]
-    path = os.path.join(ROOT, "replays", f"{pid}-{h}.json")
+    path = os.path.join(OUT, "replays", f"{pid}-{h}.json")
     with open(path, "w") as f:
         json.dump(payload, f, indent=1, default=str)
     return path
@@ -172,7 +176,7 @@ def run_check(prop, tier, seed):
         if opts.get("thorough_only") and not thorough:
             continue
         for sd in seeds:
-            n = n_quick * (4 if thorough else 1)
+            n = n_quick * (4 if thorough else 1) * BUDGET
             sz = size * (3 if thorough else 1)
             try:
                 r = corr.run_component(comp, sd, n, sz, tz=opts.get("tz"))
@@ -188,7 +192,7 @@ def run_check(prop, tier, seed):
     ctx = {
         "seed": seed,
         "tier": tier,
-        "boost": 1 if (pl["ok"] and tie_ok) else 4,
+        "boost": BUDGET * (1 if (pl["ok"] and tie_ok) else 2),
         "broken": [r["component"] for r in tie if r["disagreements"]],
     }
     orc = prop.oracle(ctx)
@@ -305,8 +309,8 @@ def run_check(prop, tier, seed):
         "wall_s": round(time.time() - t0, 2),
         "violations": len(new_viol) + (1 if status == 1 and not new_viol else 0),
     }
-    os.makedirs(os.path.join(ROOT, "evidence"), exist_ok=True)
-    with open(os.path.join(ROOT, "evidence", f"{pid}.json"), "w") as f:
+    os.makedirs(os.path.join(OUT, "evidence"), exist_ok=True)
+    with open(os.path.join(OUT, "evidence", f"{pid}.json"), "w") as f:
         json.dump(ev, f, indent=1, default=str)
     for l in out_lines:
         print(l)
